@@ -384,8 +384,11 @@ DisModIdx == [f : {"dismod"}, nm : DisNames, v : 1..8, d : SUBSET DisNames]
 \*  leaves a function of the module, not its top level)
 ModBody(name, deps, lazy) ==
   [i \in 1..Len(deps) |-> Def("x" \o ToString(i), IF lazy THEN C0(Fn0(<<Ret(Import(deps[i]))>>)) ELSE Import(deps[i]))]
-  \o <<Ret(MapL(<<"n", "c">> \o [i \in 1..Len(deps) |-> "d" \o ToString(i)],
-                <<S(name), I(0)>> \o [i \in 1..Len(deps) |-> Id("x" \o ToString(i))]))>>
+  \* (put / get: two functions of the module sharing a container variable of the module body)
+  \o <<Def("st", MapL(<<"v">>, <<I(0)>>)),
+       Ret(MapL(<<"n", "c", "put", "get">> \o [i \in 1..Len(deps) |-> "d" \o ToString(i)],
+                <<S(name), I(0), Fn(<<"x">>, FALSE, <<AsgS(Id("st"), "v", Id("x")), Ret(Id("x"))>>), Fn0(<<Ret(Sel(Id("st"), "v"))>>)>>
+                \o [i \in 1..Len(deps) |-> Id("x" \o ToString(i))]))>>
 \* graph number -> dependencies of m1, m2, m3
 GraphDeps(g) == CASE g = 1 -> << <<>>, <<>>, <<>> >>
                   [] g = 2 -> << <<"m2">>, <<>>, <<>> >>
@@ -437,9 +440,12 @@ ModMain(site) ==
     [] site = 12 -> <<Def("m", Import("bm")), Def("old", Sel(Sel(Id("m"), "lim"), "max")), AsgS(Sel(Id("m"), "lim"), "max", Bin("+", Id("old"), I(1))),
                       Ret(Arr(<<Id("old"), Sel(Sel(Import("bm"), "lim"), "max"), Sel(Id("m"), "x"), Sel(Import("m1"), "n")>>))>>
     [] site = 13 -> <<Def("m", Import("bm")), AsgS(Id("m"), "x", Bin("+", Sel(Id("m"), "x"), I(5))), Ret(Arr(<<Sel(Import("bm"), "x"), Sel(Sel(Id("m"), "lim"), "max")>>))>>
+    \* state kept in a variable of the module body, written through one import and read through the others
+    [] site = 15 -> <<Def("a", Import("m1")), Def("b", Import("m1")), ExprS(Call(Sel(Id("a"), "put"), <<I(5)>>)),
+                      Ret(Arr(<<C0(Sel(Id("b"), "get")), C0(Sel(Id("a"), "get")), C0(Sel(Import("m1"), "get")), Call(Sel(Import("m1"), "put"), <<I(6)>>), C0(Sel(Id("a"), "get"))>>))>>
     [] site = 14 -> <<Def("f", Fn0(<<Def("m", Import("bm")), AsgS(Sel(Id("m"), "lim"), "max", Bin("+", Sel(Sel(Id("m"), "lim"), "max"), I(1))), Ret(Sel(Sel(Id("m"), "lim"), "max"))>>)),
                       Ret(Arr(<<C0(Id("f")), C0(Id("f")), Sel(Sel(Import("bm"), "lim"), "max")>>))>>
-ModIdx == [f : {"mod"}, g : 1..12, site : 1..14]
+ModIdx == [f : {"mod"}, g : 1..12, site : 1..15]
 HostGlobals == [x \in {"cbcall", "cbcall2"} |-> VBi(x)]
 ModProg(c) == [P0(ModMain(c.site)) EXCEPT !.mods = ModsOf(c.g), !.globals = IF c.site \in {7, 8} THEN HostGlobals ELSE <<>>]
 \* static verdict: does the compiler have to refuse (cycle / unknown module reachable from an import expression of the main script)
@@ -448,7 +454,7 @@ Reach(g, todo, seen) == IF todo = {} THEN seen
                         ELSE LET x == CHOOSE y \in todo : TRUE
                                  d == IF x \in {"m1", "m2", "m3"} THEN SeqSet(GraphDeps(g)[CASE x = "m1" -> 1 [] x = "m2" -> 2 [] x = "m3" -> 3]) ELSE {}
                              IN Reach(g, (todo \cup d) \ (seen \cup {x}), seen \cup {x})
-MainImports(site) == CASE site \in {1, 2, 7, 9} -> {"m1"} [] site \in {8, 10, 11} -> {"m1", "m2"} [] site = 3 -> {"m1", "m2"} [] site = 4 -> {"m2"} [] site = 5 -> {"m1", "m2", "m3"} [] site = 6 -> {"m1", "m2"}
+MainImports(site) == CASE site \in {1, 2, 7, 9, 15} -> {"m1"} [] site \in {8, 10, 11} -> {"m1", "m2"} [] site = 3 -> {"m1", "m2"} [] site = 4 -> {"m2"} [] site = 5 -> {"m1", "m2", "m3"} [] site = 6 -> {"m1", "m2"}
                        [] site = 12 -> {"m1"} [] site \in {13, 14} -> {}
 ModRefused(c) == LET r == Reach(c.g, MainImports(c.site), {}) IN
                  \/ "nope" \in r
@@ -502,6 +508,8 @@ FragSeqs == <<
   \* only a final expression statement gives a fragment its value, on every path through the other statements it is undefined
   <<Def("x", I(0)), If(Id("x"), <<ExprS(I(1))>>, <<>>), Def("y", I(5)), If(Id("y"), <<ExprS(I(2))>>, <<ExprS(I(3))>>), ExprS(Bin("+", Id("x"), Id("y")))>>,
   <<Global(<<"gv">>), If(Id("gv"), <<ExprS(I(1))>>, <<>>), Def("z", I(7)), For(<<Def("i", I(0))>>, Bin("<", Id("i"), I(2)), <<Inc("i")>>, <<ExprS(Id("i"))>>), If(Id("z"), <<ExprS(Id("z"))>>, <<>>)>>,
+  \* a global written by one fragment and only read by later ones (also in a session made without a globals object)
+  <<Global(<<"gv">>), Asg("gv", I(5)), ExprS(Id("gv")), Def("f", Fn0(<<Asg("gv", Bin("+", Id("gv"), I(1))), Ret(Id("gv"))>>)), ExprS(Arr(<<C0(Id("f")), Id("gv")>>))>>,
   \* (a constant declaration emits no code: a fragment ending in one reports whatever value the statement before left, so it is not put last)
   <<Var("len"), Const("int", I(3)), Asg("len", Fn(<<"v">>, FALSE, <<Ret(S("mine"))>>)), ExprS(C1(Id("len"), S("ab"))), ExprS(Arr(<<Id("int"), C1(Id("len"), Arr(<<>>))>>))>>
 >>
